@@ -1,3 +1,166 @@
 import Driver.Common
--- stub driver for C18 (replaced when the property's model is built)
-def main (args : List String) : IO UInt32 := Driver.main' (fun _ => "bad-op") (fun _ _ => "fail bad-op") args
+import GilVerif.Model.C18
+open Driver GilVerif.Model.C18 GilVerif.Gen.C18
+
+def splitBars (ws : List String) : List (List String) :=
+  let rec go (ws : List String) (cur : List String) (acc : List (List String)) : List (List String) :=
+    match ws with
+    | [] => (cur.reverse :: acc).reverse
+    | "|" :: rest => go rest [] (cur.reverse :: acc)
+    | w :: rest => go rest (w :: cur) acc
+  go ws [] []
+
+@[inline] def hadd (h : UInt64) (v : Int) : UInt64 := h * 1099511628211 + v.toNat.toUInt64
+def h0 : UInt64 := 1469598103934665603
+
+def modelled (sp : String) : Bool := sp == "hsv" || sp == "hsl" || sp == "ycbcr601" || sp == "cmyka"
+
+/-- tolerance of the round trip in 8-bit levels: exact for hsv, hsl, xyz; one level for lab and cmyka; three for ycbcr -/
+def tol (sp : String) : Nat :=
+  if sp == "hsv" || sp == "hsl" || sp == "xyz" then 0 else if sp == "ycbcr601" || sp == "ycbcr709" then 3 else 1
+
+/-- one pixel through a modelled space: (intermediate channels, converted back) -/
+def viaSpace (sp : String) (r g b : Int) : List Int × List Int :=
+  if sp == "hsv" then
+    let (h, s, v) := rgbToHsv r g b; let (x, y, z) := hsvToRgb h s v; ([bitsOf h, bitsOf s, bitsOf v], [x, y, z])
+  else if sp == "hsl" then
+    let (h, s, l) := rgbToHsl r g b; let (x, y, z) := hslToRgb h s l; ([bitsOf h, bitsOf s, bitsOf l], [x, y, z])
+  else if sp == "ycbcr601" then
+    let (y, cb, cr) := rgbToYcbcr601 r g b; let (x, y2, z) := ycbcr601ToRgb y cb cr; ([y, cb, cr], [x, y2, z])
+  else
+    let (c, m, y, k) := rgbToCmyk8 r g b; ([c, m, y, k, 255], cmykaToRgba8 c m y k 255)
+
+/-- Spec clauses for one pixel: intermediate range (hsv/hsl) and round trip within the tolerance -/
+def pxSpec (sp : String) (orig mid back : List Int) : Option String :=
+  let rangeBad : Option String :=
+    if sp == "hsv" || sp == "hsl" then
+      let xs := mid.map f32
+      if xs.all inUnit then none
+      else
+        -- name the one pattern that is a known finding precisely: only the saturation is out of range, above 1 by at most 2^-15
+        -- (float32 rounding of diff / (2 - sum); the worst rgb8 pixel gives 1 + 2^-16)
+        let s := (xs.getD 1 0).toFloat
+        if inUnit (xs.getD 0 0) && inUnit (xs.getD 2 0) && s > 1.0 && s ≤ 1.0 + 3.0517578125e-5 then some "saturation-above-one-by-rounding"
+        else some "intermediate-range"
+    else if sp == "cmyka" then (if back.getD 3 0 ≠ 255 then some "alpha" else none)
+    else none
+  match rangeBad with
+  | some e => some e
+  | none =>
+    let d := ((back.take 3).zip orig).foldl (fun m (x, o) => max m (x - o).natAbs) 0
+    if back.length < 3 then some "shape"
+    else if d > tol sp then some (if tol sp = 0 then "round-trip-exact" else "round-trip-tolerance") else none
+
+/-- a whole plane of a modelled space: max diff, number of pixels failing a range clause, hash; plus first Spec failure -/
+def sweep (sp : String) (r : Int) : Nat × Nat × UInt64 × Option String :=
+  (List.range 256).foldl (fun acc (g : Nat) => (List.range 256).foldl (fun (md, nr, h, first) (b : Nat) =>
+      let gi : Int := g; let bi : Int := b
+      let (mid, back) := viaSpace sp r gi bi
+      let h := if sp == "cmyka" then back.foldl hadd (mid.foldl hadd h)
+               else ((mid.zip back).foldl (fun h (m, x) => hadd (hadd h m) x) h)
+      let d := ((back.take 3).zip [r, gi, bi]).foldl (fun m (x, o) => max m (x - o).natAbs) 0
+      let e := pxSpec sp [r, gi, bi] mid back
+      let rangeFail := match e with
+        | some "saturation-above-one-by-rounding" => true | some "intermediate-range" => true | some "alpha" => true | _ => false
+      (max md d, (if rangeFail then nr + 1 else nr), h, first.orElse fun _ => e)) acc)
+    (0, 0, h0, none)
+
+def showF64Bits (x : Float) : String := toString x.toBits.toNat
+
+def model (line : String) : String :=
+  match words line with
+  | ["px", sp, r, g, b] =>
+    match ints [r, g, b] with
+    | some [r, g, b] =>
+      if !modelled sp then "unmodelled" else
+      let (mid, back) := viaSpace sp r g b
+      showInts mid ++ " | " ++ showInts back
+    | _ => "bad-op"
+  | ["rt", sp, r] =>
+    match ints [r] with
+    | some [r] =>
+      if !modelled sp then "unmodelled" else
+      let (md, nr, h, _) := sweep sp r
+      s!"{md} {nr} {h.toNat}"
+    | _ => "bad-op"
+  | ["hsv2rgb", h, s, v] =>
+    match ints [h, s, v] with
+    | some [h, s, v] => let (x, y, z) := hsvToRgb (f32 h) (f32 s) (f32 v); showInts [x, y, z]
+    | _ => "bad-op"
+  | ["hsl2rgb", h, s, l] =>
+    match ints [h, s, l] with
+    | some [h, s, l] => let (x, y, z) := hslToRgb (f32 h) (f32 s) (f32 l); showInts [x, y, z]
+    | _ => "bad-op"
+  | ["hueper", sp, s, v] =>
+    match ints [s, v] with
+    | some [s, v] =>
+      let f := if sp == "hsv" then hsvToRgb else hslToRgb
+      let (a, b, c) := f 0 (f32 s) (f32 v); let (x, y, z) := f 1 (f32 s) (f32 v)
+      showInts [a, b, c] ++ " | " ++ showInts [x, y, z]
+    | _ => "bad-op"
+  | ["ga", g, a] =>
+    match ints [g, a] with
+    | some [g, a] => showInts (grayAlphaToRgba8 g a) ++ " | " ++ showInts (grayAlphaToRgb8 g a) ++ " | " ++ showInts [mul8 g a] ++ " | " ++ showInts (grayToRgba8 g)
+    | _ => "bad-op"
+  | ["lumd", r, g, b] =>
+    match ints [r, g, b] with
+    | some [r, g, b] => showF64Bits (lumDouble r g b) ++ " " ++ toString (lum8 r g b)
+    | _ => "bad-op"
+  | _ => "bad-op"
+
+def judge (op obs : String) : String :=
+  let fail (s : String) := "fail " ++ s
+  match words op with
+  | ["px", sp, r, g, b] =>
+    match ints [r, g, b], splitBars (words obs) with
+    | some orig, [m, bk] =>
+      match ints m, ints bk with
+      | some mid, some back => match pxSpec sp orig mid back with | some e => fail e | none => "ok"
+      | _, _ => fail ("not-a-value:" ++ (obs.take 40).toString)
+    | _, _ => fail ("not-a-value:" ++ (obs.take 40).toString)
+  | ["rt", sp, r] =>
+    match ints [r], ints (words obs) with
+    | some [r], some [md, nr, h] =>
+      if modelled sp then
+        -- recompute the plane in Lean, evaluate the Spec on every pixel, accept the implementation's plane by hash equality
+        let (_, _, hm, first) := sweep sp r
+        match first with
+        | some e => fail e
+        | none => if hm.toNat ≠ h.toNat then fail "plane-hash" else if md.toNat > tol sp ∨ nr ≠ 0 then fail "plane-aggregate" else "ok"
+      else
+        if nr ≠ 0 then fail "intermediate-range"
+        else if md.toNat > tol sp then fail (if tol sp = 0 then "round-trip-exact" else "round-trip-tolerance") else "ok"
+    | _, _ => fail ("not-a-value:" ++ (obs.take 40).toString)
+  | [cmd, _, s, v] =>
+    if cmd == "hsv2rgb" || cmd == "hsl2rgb" then
+      match ints [s, v], ints (words obs) with
+      | some [s, v], some [x, y, z] =>
+        if !(0 ≤ x ∧ x ≤ 255 ∧ 0 ≤ y ∧ y ≤ 255 ∧ 0 ≤ z ∧ z ≤ 255) then fail "range"
+        else if (f32 s).toFloat == 0 ∧ ¬ (x = y ∧ y = z ∧ x = toU8 (f32 v)) then fail "grey-ignores-hue"
+        else "ok"
+      | _, _ => fail ("not-a-value:" ++ (obs.take 40).toString)
+    else if cmd == "hueper" then
+      match splitBars (words obs) with
+      | [a, b] => if a == b ∧ a.length = 3 then "ok" else fail "hue-periodic"
+      | _ => fail ("not-a-value:" ++ (obs.take 40).toString)
+    else if cmd == "lumd" then
+      match ints (words op |>.drop 1), ints (words obs) with
+      | some [r, g, b], some [bits, y8] =>
+        let y := Float.ofBits bits.toNat.toUInt64
+        let w := (0.30 * Float.ofInt r + 0.59 * Float.ofInt g + 0.11 * Float.ofInt b) / 255.0
+        if Float.abs (y - w) > 1.0e-12 then fail "luminance-weights"
+        else if Float.abs (y * 255.0 - Float.ofInt y8) > 1.0 then fail "luminance-agrees-with-core"
+        else "ok"
+      | _, _ => fail ("not-a-value:" ++ (obs.take 40).toString)
+    else fail "bad-op"
+  | ["ga", g, a] =>
+    match ints [g, a], (splitBars (words obs)).map ints with
+    | some [g, a], [some o1, some o2, some o3, some o4] =>
+      if o1 ≠ [g, g, g, a] then fail "gray-alpha-to-rgba"
+      else if o4 ≠ [g, g, g, 255] then fail "gray-to-rgba"
+      else if !(o2.length = 3 ∧ o3.length = 1 ∧ (o2 ++ o3).all (fun v => (255 * v - g * a).natAbs ≤ 255)) then fail "gray-alpha-premultiplied"
+      else "ok"
+    | _, _ => fail ("not-a-value:" ++ (obs.take 40).toString)
+  | _ => fail "bad-op"
+
+def main (args : List String) : IO UInt32 := Driver.main' model judge args
